@@ -770,105 +770,12 @@ func ruleTraceStateImmutable(c *Ctx, tx *PkgIndex, rule string) {
 		if !uses {
 			continue
 		}
-		isSharedRoot := func(e ast.Expr) bool {
-			// strip slicing/index
-			for {
-				switch x := unparen(e).(type) {
-				case *ast.SliceExpr:
-					e = x.X
-					continue
-				case *ast.IndexExpr:
-					e = x.X
-					continue
-				}
-				break
-			}
+		bad := sharedSliceWrites(tx, fn, func(e ast.Expr) bool {
 			if isField(info, e, fList) {
 				_, base := fieldOf(info, e)
 				return !tx.freshLocal(fn, base)
 			}
 			return false
-		}
-		alias := map[types.Object]bool{}
-		rooted := func(e ast.Expr) bool {
-			if isSharedRoot(e) {
-				return true
-			}
-			for {
-				switch x := unparen(e).(type) {
-				case *ast.SliceExpr:
-					e = x.X
-					continue
-				case *ast.IndexExpr:
-					e = x.X
-					continue
-				}
-				break
-			}
-			o := objOf(info, e)
-			return o != nil && alias[o]
-		}
-		for changed := true; changed; {
-			changed = false
-			ast.Inspect(fn.Body(), func(nd ast.Node) bool {
-				as, ok := nd.(*ast.AssignStmt)
-				if !ok || len(as.Lhs) != len(as.Rhs) {
-					return true
-				}
-				for i, l := range as.Lhs {
-					o := objOf(info, l)
-					if o == nil || alias[o] {
-						continue
-					}
-					r := unparen(as.Rhs[i])
-					isAlias := false
-					switch x := r.(type) {
-					case *ast.SliceExpr, *ast.SelectorExpr, *ast.Ident:
-						isAlias = rooted(r) && !isIndexOnly(r)
-					case *ast.CallExpr:
-						if builtinName(info, x) == "append" && len(x.Args) > 0 && rooted(x.Args[0]) {
-							isAlias = true
-						}
-					}
-					if isAlias {
-						alias[o] = true
-						changed = true
-					}
-				}
-				return true
-			})
-		}
-		var bad []string
-		ast.Inspect(fn.Body(), func(nd ast.Node) bool {
-			switch s := nd.(type) {
-			case *ast.AssignStmt:
-				for _, l := range s.Lhs {
-					if ie, ok := unparen(l).(*ast.IndexExpr); ok && rooted(ie.X) {
-						bad = append(bad, "element store "+exprStr(l)+" at "+tx.M.posStr(l.Pos()))
-					}
-				}
-			case *ast.CallExpr:
-				switch builtinName(info, s) {
-				case "copy":
-					if len(s.Args) == 2 && rooted(s.Args[0]) {
-						bad = append(bad, "copy into "+exprStr(s.Args[0])+" at "+tx.M.posStr(s.Pos()))
-					}
-				case "append":
-					if len(s.Args) > 0 && rooted(s.Args[0]) {
-						bad = append(bad, "append to "+exprStr(s.Args[0])+" (may write into the shared backing array) at "+tx.M.posStr(s.Pos()))
-					}
-				case "clear":
-					if len(s.Args) == 1 && rooted(s.Args[0]) {
-						bad = append(bad, "clear of shared list")
-					}
-				}
-				if isCallTo(info, s, "slices.Delete") || isCallTo(info, s, "slices.Insert") || isCallTo(info, s, "sort.Slice") || isCallTo(info, s, "slices.Sort") || isCallTo(info, s, "slices.Reverse") {
-					if len(s.Args) > 0 && rooted(s.Args[0]) {
-						bad = append(bad, "in-place slices operation on the shared list at "+tx.M.posStr(s.Pos()))
-					}
-				}
-			}
-			return true
 		})
 		n++
 		c.Analysed(fn)
@@ -878,6 +785,111 @@ func ruleTraceStateImmutable(c *Ctx, tx *PkgIndex, rule string) {
 	if n == 0 {
 		c.Missing(rule, "functions using TraceState.list")
 	}
+}
+
+// sharedSliceWrites lists the writes in fn that go through a slice rooted at a shared root (isRoot, asked of expressions
+// with slicing/indexing stripped) or at a local alias of one: element stores, copy destinations, append first arguments
+// (may write into the shared backing array), clear and in-place slices/sort operations. Locals become aliases by plain
+// assignment of a rooted slice expression or of append(rooted, ...).
+func sharedSliceWrites(tx *PkgIndex, fn *FuncInfo, isRoot func(ast.Expr) bool) []string {
+	info := tx.Pkg.TypesInfo
+	strip := func(e ast.Expr) ast.Expr {
+		for {
+			switch x := unparen(e).(type) {
+			case *ast.SliceExpr:
+				e = x.X
+				continue
+			case *ast.IndexExpr:
+				e = x.X
+				continue
+			}
+			return unparen(e)
+		}
+	}
+	alias := map[types.Object]bool{}
+	rooted := func(e ast.Expr) bool {
+		b := strip(e)
+		if isRoot(b) {
+			return true
+		}
+		o := objOf(info, b)
+		return o != nil && alias[o]
+	}
+	for changed := true; changed; {
+		changed = false
+		ast.Inspect(fn.Body(), func(nd ast.Node) bool {
+			mark := func(l ast.Expr, r ast.Expr) {
+				o := objOf(info, l)
+				if o == nil || alias[o] {
+					return
+				}
+				r = unparen(r)
+				isAlias := false
+				switch x := r.(type) {
+				case *ast.SliceExpr, *ast.SelectorExpr, *ast.Ident, *ast.StarExpr:
+					isAlias = rooted(r) && !isIndexOnly(r)
+				case *ast.CallExpr:
+					if builtinName(info, x) == "append" && len(x.Args) > 0 && rooted(x.Args[0]) {
+						isAlias = true
+					} else if isRoot(x) {
+						isAlias = true
+					}
+				}
+				if isAlias {
+					alias[o] = true
+					changed = true
+				}
+			}
+			switch s := nd.(type) {
+			case *ast.AssignStmt:
+				if len(s.Lhs) == len(s.Rhs) {
+					for i, l := range s.Lhs {
+						mark(l, s.Rhs[i])
+					}
+				}
+			case *ast.ValueSpec:
+				if len(s.Names) == len(s.Values) {
+					for i, nm := range s.Names {
+						mark(nm, s.Values[i])
+					}
+				}
+			}
+			return true
+		})
+	}
+	var bad []string
+	ast.Inspect(fn.Body(), func(nd ast.Node) bool {
+		switch s := nd.(type) {
+		case *ast.AssignStmt:
+			for _, l := range s.Lhs {
+				if ie, ok := unparen(l).(*ast.IndexExpr); ok && rooted(ie.X) {
+					bad = append(bad, "element store "+exprStr(l)+" at "+tx.M.posStr(l.Pos()))
+				}
+			}
+		case *ast.CallExpr:
+			switch builtinName(info, s) {
+			case "copy":
+				if len(s.Args) == 2 && rooted(s.Args[0]) {
+					bad = append(bad, "copy into "+exprStr(s.Args[0])+" at "+tx.M.posStr(s.Pos()))
+				}
+			case "append":
+				if len(s.Args) > 0 && rooted(s.Args[0]) {
+					bad = append(bad, "append to "+exprStr(s.Args[0])+" (may write into the shared backing array) at "+tx.M.posStr(s.Pos()))
+				}
+			case "clear":
+				if len(s.Args) == 1 && rooted(s.Args[0]) {
+					bad = append(bad, "clear of shared list")
+				}
+			}
+			if isCallTo(info, s, "slices.Delete") || isCallTo(info, s, "slices.Insert") || isCallTo(info, s, "sort.Slice") || isCallTo(info, s, "slices.Sort") || isCallTo(info, s, "slices.Reverse") {
+				if len(s.Args) > 0 && rooted(s.Args[0]) {
+					bad = append(bad, "in-place slices operation on the shared list at "+tx.M.posStr(s.Pos()))
+				}
+			}
+		}
+		return true
+	})
+	return bad
 }
 
 func isIndexOnly(e ast.Expr) bool {
